@@ -81,9 +81,9 @@ func init() {
 			"distinct = distinct (sources, data, fault); non-trivial = the fault hits a write that carries bytes",
 		N: func(tier string) int {
 			if tier == "thorough" {
-				return 60000
+				return 300000
 			}
-			return 4000
+			return 12000
 		},
 		Exhaustive: func(tier string) bool { return false },
 		Run: func(ctx *fw.Ctx, i int) fw.Result {
@@ -125,7 +125,7 @@ func init() {
 				t.Body = append(t.Body, tail)
 				ctx.Cell("long-value-last")
 			}
-			files := bundleSources(prog.B, ref.Layout{})
+			files := bundleSources(prog.B, ref.Layout{Multiline: i%4 == 1, CRLF: i%6 == 3})
 			segs, st := ref.Render(prog.B, prog.Entry, prog.Data, ref.RenderOpts{IJ: prog.IJ})
 			if st != ref.OK {
 				return fw.Result{Verdict: fw.Skip}
